@@ -25,6 +25,13 @@
       (full statement "same errors in the same order" is false for the code as it is:
        `lazy_order_counterexample`, finding C06-F1; without `Local` errors are lost:
        `lazy_nonlocal_counterexample`, finding C06-F2)
+    * the identity-constraint tables of the two phases of lazy validation (chunks, then the pruned root) are merged by
+      a union of counters: the merged table equals the table of the full run for EVERY partition of the selected
+      nodes between the phases, so key references see the same keys   — `merge_counts`, `merge_counts_none`,
+      `merge_dangling` (a first-wins merge is wrong: `merge_firstwins_counterexample`, seeded change C06-3);
+      full statement "same duplicated-value errors" is false for the code as it is: a value counted once in each
+      phase is never reported — `merge_dups_counterexample`, `merge_dups_cross` (finding C06-F13)
+    * the boundary of `Local`: `lazy_errors_split` (no hypothesis), `lazy_errors_law_weak` (per-chunk error equality)
     * the depth-limited run used for the root reports exactly the errors above the cut and decodes exactly
       the data above the cut                                       — `depth_cut_prefix`, `decode_cut_prune`
 -/
@@ -410,6 +417,69 @@ theorem lazy_nonlocal_counterexample :
       = [1, 100, 900] ∧
     eagerErrors wVal 0 wDoc [] [] = [100, 1, 2, 900] := by
   decide
+
+/-! ### identity-constraint tables: the two-phase merge -/
+
+/-- The merge rule of schemas.py:1392-1399 is a UNION of counters: for every constraint, every list of selected
+    nodes and EVERY partition of them between the chunk phase and the root pass, the merged table counts every value
+    exactly as the table of the fully loaded run does.  (With `phase1 = some …`: a counter was initialised by a
+    depth-level element; the `none` case is `merge_counts_none`.) -/
+theorem merge_counts (sel : List (Bool × Nat)) (w : Nat) :
+    (mergeTables (some (collect (phaseVals false sel)).1) (collect (phaseVals true sel)).1).get w
+      = (collect (sel.map Prod.snd)).1.get w := by
+  simp only [mergeTables]
+  rw [Ctr.update_get, collect_get, collect_get]
+  have : (collect (phaseVals true sel)).1.total w = (phaseVals true sel).count w := by
+    simp [collect, collectFrom_total, Ctr.total]
+  rw [this, count_phases]
+
+/-- no depth-level element (e.g. `<r/>`): the root-pass table is the table (commit 851aaad) -/
+theorem merge_counts_none (sel : List (Bool × Nat)) (hall : ∀ p ∈ sel, p.1 = true) (w : Nat) :
+    (mergeTables none (collect (phaseVals true sel)).1).get w = (collect (sel.map Prod.snd)).1.get w := by
+  simp only [mergeTables]
+  rw [collect_get, collect_get, ← count_phases sel w]
+  have : phaseVals false sel = [] := by
+    simp only [phaseVals, List.map_eq_nil_iff, List.filter_eq_nil_iff]
+    intro p hp; simp [hall p hp]
+  simp [this]
+
+/-- …hence the key references are checked against the same key table as in the full run: the dangling values are
+    the same list, whatever the partition of the key's nodes between the phases. -/
+theorem merge_dangling (keySel : List (Bool × Nat)) (refs : Ctr) :
+    dangling (mergeTables (some (collect (phaseVals false keySel)).1) (collect (phaseVals true keySel)).1) refs
+      = dangling (collect (keySel.map Prod.snd)).1 refs := by
+  simp only [dangling]
+  congr 1
+  apply List.filter_congr
+  intro p _
+  rw [merge_counts]
+
+/-- A first-wins merge (`identities.setdefault`, seeded change C06-3) is wrong: a key on the root itself (value 7,
+    collected in the root pass) referenced from a streamed child is reported as dangling. -/
+theorem merge_firstwins_counterexample :
+    let keySel := [(true, 7)]                 -- <r k="7">: selector "."
+    let refs : Ctr := [(7, 1)]                -- <e q="7"/>: keyref collected in the chunk phase
+    dangling (mergeFirstWins (some []) (collect (phaseVals true keySel)).1) refs = [7] ∧
+    dangling (mergeTables (some []) (collect (phaseVals true keySel)).1) refs = [] ∧
+    dangling (collect (keySel.map Prod.snd)).1 refs = [] := by
+  decide
+
+/-- FULL statement wanted by the property: the "duplicated value" errors of a key/unique are those of the full run.
+    False for the code as it is (finding C06-F13): `Counter.update` adds the counts of the root pass without raising,
+    so a value that occurs once above the lazy depth and once inside a chunk is never reported. -/
+theorem merge_dups_counterexample :
+    let sel := [(true, 1), (false, 1), (false, 3)]      -- <r k="1"><e k="1"/><e k="3"/></r>, selector ".|e"
+    (collect (sel.map Prod.snd)).2 = [1] ∧
+    (collect (phaseVals false sel)).2 ++ (collect (phaseVals true sel)).2 = [] ∧
+    (mergeTables (some (collect (phaseVals false sel)).1) (collect (phaseVals true sel)).1).get 1 = 2 := by
+  decide
+
+/-- …and what the merge has to report to repair it (notes/fixes/C06-lazy-identity-merge-duplicates.patch): exactly
+    the values counted once in each phase — for these the merged count is 2 although no phase raised. -/
+theorem merge_dups_cross (sel : List (Bool × Nat)) (w : Nat)
+    (h1 : (phaseVals false sel).count w = 1) (h2 : (phaseVals true sel).count w = 1) :
+    (mergeTables (some (collect (phaseVals false sel)).1) (collect (phaseVals true sel)).1).get w = 2 := by
+  rw [merge_counts, collect_get, ← count_phases, h1, h2]
 
 /-! ### decoded data above the cut -/
 
